@@ -30,7 +30,8 @@ RULE = ("pattern copies sharing atoms: hetero chains A-B-A-B-.. with unequal / e
         "(2-4 copies, neighbours share two atoms), stars of 2-4 two- or three-atom arms on a common centre, two triangles "
         "on a common edge, a 4-ring, disjoint copies; random rigid pose and origin (also across cell faces) in "
         "orthorhombic / triclinic / rotated cells, bystander atoms; replacement: every subset of search atoms retained, "
-        "the others dropped or swapped for another element, optional extra atom, EMPTY replacement; replace_all on/off; "
+        "the others dropped, swapped for another element, or kept as the same element NUDGED by 1e-4..0.03 A (not shared by the "
+        "documented 1e-5 A rule although within the search tolerance), optional extra atom, EMPTY replacement; replace_all on/off; "
         "ignore flag on/off; fraction 1 or < 1. Thorough: every template x every retained subset x drop/swap x extra x both "
         "flags. Non-trivial = distinct input with >= 2 selected matches that share at least one atom.")
 
@@ -136,8 +137,14 @@ def build(rng, kind, ncopies, cell_kind=None, pose=None):
             "pattern": pat}
 
 
+NUDGES = [F(1, 8192), F(1, 1024), F(1, 256), F(1, 100), F(1, 64), F(1, 50), F(3, 128), F(3, 100)]
+
+
 def replacement_for(rng, pat, retain, other="drop", extra=False):
-    """retained search atoms verbatim; the others dropped or swapped for a new element at the same place"""
+    """retained search atoms verbatim; the others dropped, swapped for a new element at the same place, or NUDGED:
+    the same element displaced by 1e-4 .. 0.03 A (more than the 1e-5 A identification threshold, less than the search
+    tolerance) - by the documented rule such an atom is NOT common to both patterns, so the match removes the
+    structure atom and inserts a displaced one"""
     pe, pp = pat
     elems, pos = [], []
     for j in range(len(pe)):
@@ -147,6 +154,12 @@ def replacement_for(rng, pat, retain, other="drop", extra=False):
         elif other == "swap":
             elems.append(rng.choice([e for e in ["Si", "Zn", "Cu", "B"] if e != pe[j]]))
             pos.append(list(pp[j]))
+        elif other == "nudge":
+            x = list(pp[j])
+            k = rng.randrange(3)
+            x[k] = x[k] + rng.choice([1, -1]) * rng.choice(NUDGES)
+            elems.append(pe[j])
+            pos.append(x)
     if extra:
         elems.append("Zr")
         pos.append([pp[0][0] + F(3, 8), pp[0][1] - F(9, 8), pp[0][2] + F(7, 8)])
@@ -162,7 +175,7 @@ def make_case(rng, kind=None, ncopies=None, retain=None, other=None, extra=None,
     pe, pp = st["pattern"]
     if retain is None:
         retain = [j for j in range(len(pe)) if rng.random() < 0.5]
-    other = other or rng.choice(["drop", "swap"])
+    other = other or rng.choice(["drop", "swap", "nudge"])
     extra = rng.random() < 0.3 if extra is None else extra
     relems, rpos = replacement_for(rng, st["pattern"], set(retain), other, extra)
     sj = g.structure_json(rng, st, relabel=rng.random() < 0.3)
@@ -307,7 +320,7 @@ def systematic(rng):
             npat = 2 if kind == "star2" else 3
             for r in range(npat + 1):
                 for retain in itertools.combinations(range(npat), r):
-                    for other in ("drop", "swap"):
+                    for other in ("drop", "swap", "nudge"):
                         for extra in (False, True):
                             for ra in (False, True):
                                 for ig in (False, True):
@@ -331,6 +344,7 @@ def run(ctx, oracle_only=False, scale=1):
             for ig in (False, True):
                 inps.append(make_case(rng, kind, 2, retain, "drop", retain == [], False, ig, 1.0))
                 inps.append(make_case(rng, kind, 3, retain, "swap", False, False, ig, 1.0))
+                inps.append(make_case(rng, kind, 2, retain, "nudge", False, False, ig, 1.0))
     if ctx.tier != "quick":
         inps += systematic(rng)
     procs = 1 if len(inps) <= 1500 else max(1, min(8, (os.cpu_count() or 2) // 2))
